@@ -436,4 +436,61 @@ def odd_cases():
                      ('EAStorySwap', B.ea('SWAP', ABSENT, [B.ids('storyID', ['A', 'B'])])),
                      ('ItemDelete', B.item_delete('A', ['I1'])), ('EAItemMove', B.ea('MOVE', {'storyID': 'A', 'itemID': BLANK}, [B.ids('itemID', ['I1'])]))]:
         case(cls, 'completed running order', msg, done)
+        # ... whatever the envelope of the later message looks like (messageID missing, blank, not a number)
+        for mid in (ABSENT, BLANK, 'abc', '007'):
+            m2 = TJ.canon(msg)
+            m2[4] = [k for k in m2[4] if k[0] != 'messageID'] if mid is ABSENT else \
+                [(E('messageID', text=mid) if k[0] == 'messageID' else k) for k in m2[4]]
+            case(cls, 'completed running order, messageID %r' % (mid,), m2, done)
+    # the running order's own envelope is as free as a message's: roCreate first, fields missing
+    first = TJ.canon(ro)
+    first[4] = first[4][-1:] + first[4][:-1]
+    bare = TJ.canon(ro)
+    bare[4] = [k for k in bare[4] if k[0] in ('messageID', 'roCreate')]
+    for r2, lbl in ((first, 'roCreate first in the envelope'), (bare, 'bare envelope')):
+        for cls, msg in [('RunningOrderReplace', B.ro_replace([X, Y])), ('MetaDataReplace', B.metadata_replace([E('roSlug', text='s')])),
+                         ('RunningOrderEnd', B.ro_delete()), ('StoryAppend', B.story_append([X])),
+                         ('StoryDelete', B.story_delete(['B'])), ('ReadyToAir', B.ready_to_air())]:
+            case(cls, lbl, msg, r2)
+    # IDs are opaque strings: look-alikes that differ only by padding, letter case or a comma are different IDs
+    pad = B.ro_doc([st('A'), st('A '), st(' A'), st('a'), B.story('B', [B.item('I1'), B.item('I1 '), B.item(' I1'), B.item('i1')]),
+                    st('B ')], pattern='between')
+    for cls, lbl, msg in [
+            ('StoryDelete', 'padded ref names the padded story', B.story_delete(['A '])),
+            ('StoryDelete', 'padded ref matching nothing', B.story_delete(['A  ', 'A\n'])),
+            ('StoryDelete', 'lower-case ref', B.story_delete(['a'])),
+            ('StoryReplace', 'padded target', B.story_replace(' A', [X])),
+            ('StoryReplace', 'padded target matching nothing', B.story_replace('B  ', [X])),
+            ('StoryInsert', 'padded target', B.story_insert('B ', [X])),
+            ('StoryInsert', 'carried ID is a padded look-alike', B.story_insert('B', [new_story('A  '), new_story('A ')])),
+            ('StoryMove', 'padded refs', B.story_move(['B ', 'A '])),
+            ('StorySend', 'padded ref', B.story_send('A ', [B.p('x')])),
+            ('ItemDelete', 'padded item ref', B.item_delete('B', ['I1 '])),
+            ('ItemDelete', 'padded item ref matching nothing', B.item_delete('B', ['I1  ', 'I1'])),
+            ('ItemDelete', 'padded story ref', B.item_delete('B ', ['I1'])),
+            ('ItemReplace', 'padded item ref', B.item_replace('B', ' I1', [new_item('N')])),
+            ('ItemInsert', 'case look-alike', B.item_insert('B', 'i1', [new_item('N')])),
+            ('ItemMoveMultiple', 'padded refs', B.item_move_multiple('B', ['I1 ', 'I1'])),
+            ('EAStoryDelete', 'padded refs', B.ea('DELETE', ABSENT, [B.ids('storyID', ['A ', ' B'])])),
+            ('EAStorySwap', 'look-alikes swapped', B.ea('SWAP', ABSENT, [B.ids('storyID', ['A ', 'a'])])),
+            ('EAStoryMove', 'padded', B.ea('MOVE', {'storyID': 'A '}, [B.ids('storyID', ['B '])])),
+            ('EAStoryReplace', 'padded target matching nothing', B.ea('REPLACE', {'storyID': 'a '}, [[X]])),
+            ('EAItemReplace', 'padded item matching nothing', B.ea('REPLACE', {'storyID': 'B', 'itemID': 'I1  '}, [[new_item('N')]])),
+            ('EAItemReplace', 'padded item', B.ea('REPLACE', {'storyID': 'B', 'itemID': 'I1 '}, [[new_item('N')]])),
+            ('EAItemDelete', 'padded', B.ea('DELETE', {'storyID': 'B'}, [B.ids('itemID', [' I1', 'I1  '])])),
+            ('EAItemSwap', 'padded', B.ea('SWAP', {'storyID': 'B'}, [B.ids('itemID', ['I1', 'I1 '])])),
+            ('EAItemMove', 'padded', B.ea('MOVE', {'storyID': 'B', 'itemID': 'I1'}, [B.ids('itemID', ['i1', 'I1 '])])),
+            ('EAItemInsert', 'padded', B.ea('INSERT', {'storyID': 'B', 'itemID': ' I1'}, [[new_item('N')]]))]:
+        case(cls, 'look-alike IDs: ' + lbl, msg, pad)
+    # a blank-ID story carried into a running order that already holds a blank-ID story
+    for cls, lbl, msg in [
+            ('StoryInsert', 'blank carried, blank present', B.story_insert('C', [B.story(BLANK, [B.item('Q')]), X])),
+            ('StoryInsert', 'two blanks carried', B.story_insert('A', [B.story(BLANK, []), B.story(BLANK, [])])),
+            ('EAStoryInsert', 'blank carried, blank present', B.ea('INSERT', {'storyID': 'C'}, [[B.story(BLANK, []), X]])),
+            ('StoryAppend', 'blank carried, blank present', B.story_append([B.story(BLANK, [])])),
+            ('StoryReplace', 'blank carried, blank present', B.story_replace('C', [B.story(BLANK, [])])),
+            ('StoryInsert', 'ID-less carried, blank present', B.story_insert('C', [B.story(ABSENT, [])])),
+            ('ItemInsert', 'blank item carried, blank present', B.item_insert('D', 'I1', [B.item(BLANK)])),
+            ('ItemReplace', 'blank item carried', B.item_replace('D', 'I1', [B.item(BLANK), B.item(BLANK)]))]:
+        case(cls, 'blank IDs in RO: ' + lbl, msg, blank_ro)
     return out
